@@ -2,7 +2,8 @@ SPEC = {
     "id": "C19",
     "level": "other",
     "sidecars": ["twitter", "telegram", "instagram", "google", "youtube", "facebook"],
-    "functions": ['ural/twitter.py:is_twitter_url', 'ural/twitter.py:normalize_screen_name', 'ural/twitter.py:parse_twitter_url', 'ural/twitter.py:extract_screen_name_from_twitter_url', 'ural/telegram.py:is_telegram_message_id', 'ural/telegram.py:is_telegram_url', 'ural/telegram.py:parse_telegram_url', 'ural/telegram.py:extract_channel_name_from_telegram_url', 'ural/telegram.py:convert_telegram_url_to_public', 'ural/instagram.py:is_instagram_post_shortcode', 'ural/instagram.py:is_instagram_username', 'ural/instagram.py:is_instagram_url', 'ural/instagram.py:parse_instagram_url', 'ural/instagram.py:extract_username_from_instagram_url', 'ural/google.py:is_amp_url', 'ural/google.py:is_google_link', 'ural/google.py:extract_url_from_google_link', 'ural/google.py:parse_google_drive_url', 'ural/google.py:extract_id_from_google_drive_url', 'ural/youtube.py:is_youtube_video_id', 'ural/youtube.py:is_youtube_channel_id', 'ural/youtube.py:parse_youtube_url', 'ural/youtube.py:extract_video_id_from_youtube_url', 'ural/youtube.py:normalize_youtube_url', 'ural/facebook.py:is_facebook_id', 'ural/facebook.py:is_facebook_full_id', 'ural/facebook.py:is_facebook_url', 'ural/facebook.py:is_facebook_post_url', 'ural/facebook.py:is_facebook_link', 'ural/facebook.py:extract_url_from_facebook_link', 'ural/facebook.py:convert_facebook_url_to_mobile', 'ural/facebook.py:parse_facebook_url', 'ural/facebook.py:has_facebook_comments'],
+    "function_sidecars": {'ural/utils.py:safe_urlsplit': ["utils"]},
+    "functions": ['ural/utils.py:safe_urlsplit', 'ural/twitter.py:is_twitter_url', 'ural/twitter.py:normalize_screen_name', 'ural/twitter.py:parse_twitter_url', 'ural/twitter.py:extract_screen_name_from_twitter_url', 'ural/telegram.py:is_telegram_message_id', 'ural/telegram.py:is_telegram_url', 'ural/telegram.py:parse_telegram_url', 'ural/telegram.py:extract_channel_name_from_telegram_url', 'ural/telegram.py:convert_telegram_url_to_public', 'ural/instagram.py:is_instagram_post_shortcode', 'ural/instagram.py:is_instagram_username', 'ural/instagram.py:is_instagram_url', 'ural/instagram.py:parse_instagram_url', 'ural/instagram.py:extract_username_from_instagram_url', 'ural/google.py:is_amp_url', 'ural/google.py:is_google_link', 'ural/google.py:extract_url_from_google_link', 'ural/google.py:parse_google_drive_url', 'ural/google.py:extract_id_from_google_drive_url', 'ural/youtube.py:is_youtube_video_id', 'ural/youtube.py:is_youtube_channel_id', 'ural/youtube.py:parse_youtube_url', 'ural/youtube.py:extract_video_id_from_youtube_url', 'ural/youtube.py:normalize_youtube_url', 'ural/facebook.py:is_facebook_id', 'ural/facebook.py:is_facebook_full_id', 'ural/facebook.py:is_facebook_url', 'ural/facebook.py:is_facebook_post_url', 'ural/facebook.py:is_facebook_link', 'ural/facebook.py:extract_url_from_facebook_link', 'ural/facebook.py:convert_facebook_url_to_mobile', 'ural/facebook.py:parse_facebook_url', 'ural/facebook.py:has_facebook_comments'],
     "bounded": ["bcheck.c19"],
     "explanation": (
         "Deductive (every string, pyvc; 33 functions of the six platform modules, re-extracted on every run): EXCEPTION FREEDOM - every positional "
